@@ -8,7 +8,7 @@ use rayon::prelude::*;
 use serde_json::json;
 use vcore::{rng_for, CaseOut, Ctx, Viol};
 
-use crate::util::{fhexs, has_order_pow2, omega_for, outer_workers, powers_of, seeded_vec, GPool, POOLS_ALL};
+use crate::util::{fhexs, has_order_pow2, omega_for, powers_of, seeded_vec, GPool, MIXED_POOL_WORKERS, POOLS_ALL};
 
 /// X_j = Σ_i a_i ω^(ij), by definition (ω^n = 1 is checked by the caller, exponents are reduced mod n).
 fn dft<F: PrimeField>(a: &[F], pw: &[F]) -> Vec<F> {
@@ -121,11 +121,23 @@ where
         }
     }
 
-    for t in POOLS_ALL {
-        let cases: Vec<(String, usize)> = (0..=kmax).map(|k| (format!("{name}:k={k}:pool={t}"), k as usize)).collect();
+    {
+        // scalar and group transforms are separate cases (the group ones are far longer)
+        let mut cases: Vec<(String, (usize, usize, bool))> = vec![];
+        for k in 0..=kmax {
+            for t in POOLS_ALL {
+                cases.push((format!("{name}:k={k}:pool={t}:scalars"), (t, k as usize, false)));
+                // quick tier: the large group transforms (always the recursive algorithm) under pools 1 and 16 only
+                if k <= gkmax && (thorough || k <= 8 || t == 1 || t == 16) {
+                    cases.push((format!("{name}:k={k}:pool={t}:group"), (t, k as usize, true)));
+                }
+            }
+        }
         let refs = &refs;
-        cx.run_cases_with(&format!("fft-{name}-pool{t}"), &cases, outer_workers(t), |k| {
+        cx.run_cases_with(&format!("fft-{name}"), &cases, MIXED_POOL_WORKERS, |(t, k, group_case)| {
+            let t = *t;
             let r = &refs[*k];
+            let group_case = *group_case;
             let k = r.k;
             let n = 1usize << k;
             let mut out = CaseOut::batch();
@@ -141,7 +153,7 @@ where
             let omega_inv = omega.invert().unwrap();
             let n_inv = F::from(n as u64).invert().unwrap();
             let pfx = if name == "bls12-381" { String::new() } else { format!("{name}:") };
-            let mut fail = |out: &mut CaseOut, entry: &str, dom: &str, input: &str, res: Result<bool, String>, a: &[F]| {
+            let fail = |out: &mut CaseOut, entry: &str, dom: &str, input: &str, res: Result<bool, String>, a: &[F]| {
                 let detail = json!({"curve": name, "entry": entry, "over": dom, "k": k, "rayon_pool": t, "input": input,
                     "omega": crate::util::fhex(&omega), "input_values(first 8)": fhexs(a, 8)});
                 match res {
@@ -159,6 +171,26 @@ where
                 }
             };
             for (idx, (iname, a, d)) in r.inputs.iter().enumerate() {
+                if group_case {
+                    let (gin, gexp) = &r.ginputs.as_ref().expect("group case without group reference")[idx];
+                    let res = gp.run(|| {
+                        let mut x = gin.clone();
+                        best_fft(&mut x, omega, k);
+                        x
+                    });
+                    let fwd = res.as_ref().ok().cloned();
+                    fail(&mut out, "best_fft", "group", iname, res.map(|x| x == *gexp), a);
+                    if let Some(y) = fwd {
+                        let res = gp.run(|| {
+                            let mut z = y.clone();
+                            best_fft(&mut z, omega_inv, k);
+                            z.iter_mut().for_each(|v| *v *= n_inv);
+                            z
+                        });
+                        fail(&mut out, "best_fft-inverse", "group", iname, res.map(|z| z == *gin), a);
+                    }
+                    continue;
+                }
                 // forward
                 let res = gp.run(|| {
                     let mut x = a.clone();
@@ -193,29 +225,9 @@ where
                     });
                     fail(&mut out, "recursive_butterfly_arithmetic", "scalars", iname, res.map(|x| x == *d), a);
                 }
-                // over the group
-                if let Some(gi) = &r.ginputs {
-                    let (gin, gexp) = &gi[idx];
-                    let res = gp.run(|| {
-                        let mut x = gin.clone();
-                        best_fft(&mut x, omega, k);
-                        x
-                    });
-                    let fwd = res.as_ref().ok().cloned();
-                    fail(&mut out, "best_fft", "group", iname, res.map(|x| x == *gexp), a);
-                    if let Some(y) = fwd {
-                        let res = gp.run(|| {
-                            let mut z = y.clone();
-                            best_fft(&mut z, omega_inv, k);
-                            z.iter_mut().for_each(|v| *v *= n_inv);
-                            z
-                        });
-                        fail(&mut out, "best_fft-inverse", "group", iname, res.map(|z| z == *gin), a);
-                    }
-                }
             }
             out.sample = Some(json!({"curve": name, "k": k, "rayon_pool": t, "algorithm": if iterative { "iterative (log_n <= log2 threads)" } else { "recursive" },
-                "inputs": ["delta0", "delta-last", "ones", "seeded"], "group_fft": r.ginputs.is_some()}));
+                "inputs": ["delta0", "delta-last", "ones", "seeded"], "over": if group_case { "group (inputs cᵢ·G)" } else { "scalars" }}));
             out
         });
     }
